@@ -33,7 +33,10 @@ def HasTyR (st : StructTable) : Ty → RExp → Prop
   | t, .struct kvs => t.arrDim = 0 ∧ t.mapDim = 0 ∧
       ∃ ps, st.lookup t.base = some ps ∧ HasTyRMembers st ps kvs ∧ ∀ p ∈ ps, (kvs.lookup p.name).isSome
   | t, .ref _ sty path => Sub st (pathTy st sty path) t
-  | _, .split _ _ _ => False
+  -- the element of the current fork of an ARRAY-mode map call (a split input that reached an
+  -- environment: the callee is a mapped pipeline); typed-map mode: not covered
+  | t, .split _ false e => HasTyR st { t with arrDim := t.arrDim + 1 } e
+  | _, .split _ true _ => False
   | _, .merge _ _ _ => False
   | _, .disabled _ _ => False
   | t, .fork _ _ e => HasTyR st t e
@@ -279,7 +282,9 @@ theorem evalRT_filterR :
         cases he : kvs.lookup p.name with
         | none => simp [he] at this
         | some e => simp
-  | .split _ _ _, _, h => by simp [HasTyR] at h
+  | .split c m e, t, h => by
+    have e' : filterR st t (.split c m e) = .split c m e := by simp [filterR]
+    rw [e']; exact ⟨rfl, h⟩
   | .merge _ _ _, _, h => by simp [HasTyR] at h
   | .disabled _ _, _, h => by simp [HasTyR] at h
   | .fork c ix e, t, h => by
